@@ -36,6 +36,7 @@ type scenario struct {
 	failFrom     map[int]int          // connection number -> all sends from the k-th on fail
 	failSess     map[int]bool         // n-th session call (over the lifetime) fails
 	failCall     map[string]int
+	queueFull    bool // injected Publish failures report broker.ErrQueueFull
 	resumed      bool // what Setup reports on the first connection
 	steps        []step
 	noSettle     bool   // pipelined: do not wait between steps
@@ -57,8 +58,12 @@ func (sc *scenario) text() string {
 			parts = append(parts, st.kind)
 		}
 	}
-	return fmt.Sprintf("%s/%s mode=%d w=%d fs=%v ff=%v fsess=%v fcall=%v cor=%d react=%s [%s]", sc.family, sc.name, sc.mode, sc.w, sc.failSend, sc.failFrom,
-		sc.failSess, sc.failCall, sc.closeOnRx, sc.react, strings.Join(parts, " "))
+	qf := ""
+	if sc.queueFull {
+		qf = "(queue-full)"
+	}
+	return fmt.Sprintf("%s/%s mode=%d w=%d fs=%v ff=%v fsess=%v fcall=%v%s cor=%d react=%s [%s]", sc.family, sc.name, sc.mode, sc.w, sc.failSend, sc.failFrom,
+		sc.failSess, sc.failCall, qf, sc.closeOnRx, sc.react, strings.Join(parts, " "))
 }
 
 type result struct {
@@ -103,6 +108,7 @@ func runScenario(orig *scenario) *result {
 	}
 	b.restoreFail = sc.restoreFail
 	b.resumed = sc.resumed
+	b.pubErrQueueFull = sc.queueFull
 	for k, v := range sc.failCall {
 		b.failCall[k] = v
 	}
